@@ -22,7 +22,7 @@ RULE = ('seeded random (pva, lever arm, body rates present/absent, measurement v
         'tests use none of these with a checked Jacobian); distinct = generator parameters')
 ASSUMPTIONS = ['Jacobian reference = Richardson central differences of the real residual through the real correct_pva; '
                'steps 10 m / 1 m/s / 1e-4 rad', 'position residual compared to first order: bound 4|z|^2 (1+tan lat)/R']
-REQUIRED_OBS = ['residual_checked', 'jacobian_checked', 'noise_checked', 'absent_time_checked', 'sim_zero_residual',
+REQUIRED_OBS = ['history_independence_checked', 'residual_checked', 'jacobian_checked', 'noise_checked', 'absent_time_checked', 'sim_zero_residual',
                 'sim_injected_error', 'translate_consistency', 'lever_and_rates_cases']
 REQUIRED_CLASSES = {'all': ['Position', 'NedVelocity', 'BodyVelocity', 'simulators']}
 LLA = ['lat', 'lon', 'alt']
@@ -295,6 +295,38 @@ def run_case(case):
                 if np.abs(zv).max() > 1e-10 * (1 + np.abs(traj[VEL].values).max()):
                     out.append(vio('lever_velocity', f'antenna velocity from translate_trajectory gives z = {zv.tolist()} '
                                    f'with lever {lever.tolist()} rates {traj[RATE].iloc[i].tolist()}'))
+            # ---- call histories: results must not depend on which error model / measurement object was used before ----------
+            # (a shared error model evaluating a lever-arm measurement first, a measurement object used in 3-D first and 2-D later, ...)
+            STATE['enabled'] = False
+            sd = 1.0
+            objs = {
+                'pos_lever': lambda: measurements.Position(data0 if False else sim.generate_position_measurements(traj, 0.0, 1), sd, lever),
+                'pos_plain': lambda: measurements.Position(sim.generate_position_measurements(traj, 0.0, 1), sd),
+                'ned_lever': lambda: measurements.NedVelocity(sim.generate_ned_velocity_measurements(traj, 0.0, 1), sd, lever),
+                'ned_plain': lambda: measurements.NedVelocity(sim.generate_ned_velocity_measurements(traj, 0.0, 1), sd),
+                'body': lambda: measurements.BodyVelocity(sim.generate_body_velocity_measurements(traj, 0.0, 1), sd),
+            }
+            shared = {True: InsErrorModel(True), False: InsErrorModel(False)}
+            live = {k: f() for k, f in objs.items()}
+            names = list(objs)
+            for step in range(14):
+                nm = names[int(rng.integers(0, len(names)))]
+                mode = bool(rng.integers(0, 2))
+                i = int(rng.integers(0, n))
+                pv = traj.iloc[i] if rng.random() < 0.5 else traj.iloc[i][LLA + VEL + RPH]
+                got = live[nm].compute_matrices(tt[i], pv, shared[mode])
+                ref = objs[nm]().compute_matrices(tt[i], pv, InsErrorModel(mode))         # fresh object, fresh error model
+                bump('history_independence_checked')
+                for a_, b_, part in zip(got, ref, 'zHR'):
+                    a_, b_ = np.asarray(a_, float), np.asarray(b_, float)
+                    if a_.shape != b_.shape or not np.array_equal(a_, b_):
+                        out.append(vio('history_dependent_result', f'{nm}: {part} from an object / error model used before (step {step}, with_altitude={mode}) differs from '
+                                       f'a fresh object with a fresh error model: shape {a_.shape} vs {b_.shape}'
+                                       + ('' if a_.shape != b_.shape else f', max diff {np.abs(a_ - b_).max():.3e}')))
+                        break
+                if out:
+                    break
+            STATE['enabled'] = True
             sample = dict(cls=cls, with_altitude=wa, sd=sd)
     except Exception as e:     # the code under test raised on a valid input
         import traceback
